@@ -18,78 +18,9 @@ NOT_DECIDED = ["outcome of std::sort on concrete metric values (ties, NaN)"]
 ASSUMPTIONS = ["std::sort orders by the given comparator", "std::tuple compares lexicographically"]
 
 
-def run(ctx):
-    # locals / parameters the rules below refer to by name (a rename makes the analysis 'broken', never a violation)
-    ctx.anchor(ctx.fn1('Oomd::BaseKillPlugin::resumeTryingToKillSomething'), 'candidate', 'nextBestOptionStack', 'sorted')
-    ctx.anchor(ctx.fn1('Oomd::BaseKillPlugin::tryToKillSomething'), 'sorted', 'nextBestOptionStack')
-    ctx.anchor(ctx.fn1('Oomd::Fs::readKillPreferenceAt'), 'path')
+def kill_preference_reader(ctx):
+    """prefer/avoid xattrs -> KillPreference (shared by C03 and C15)."""
     P = ctx.prog
-    # ---- 1. enum order
-    e = P.enums.get("Oomd::KillPreference")
-    if not e:
-        ctx.broken("enum", "anchor", "-", "enum Oomd::KillPreference not found")
-    else:
-        v = {c["name"]: c["val"] for c in e["consts"]}
-        ctx.check(v.get("PREFER", 0) > v.get("NORMAL", 0) > v.get("AVOID", 0) and len(v) == 3,
-                  "enum-order:KillPreference", "enum-values", "oomd/include/Types.h",
-                  "PREFER > NORMAL > AVOID", "KillPreference values are %s" % v)
-
-    # ---- 2. the comparator
-    n_cmp = 0
-    for f in P.fns.values():
-        if f.pq != "Oomd::OomdContext::sortDescWithKillPrefs":
-            continue
-        ctx.use(f)
-        lams = P.lambdas_in(f)
-        sorts = f.calls("std::sort", "std::stable_sort")
-        ctx.check(len(sorts) == 1 and len(lams) >= 1, "sortDesc-uses-one-comparator", "anchor", f.loc(),
-                  "one std::sort with one comparator", "expected one std::sort with a closure comparator")
-        for l in lams:
-            ctx.use(l)
-            pa = [p["name"] for p in l.params]
-            for r in returns(l):
-                n_cmp += 1
-                top = l.nodes[l.strip(l.nodes[r]["val"])]
-                ok, why = False, "comparator is not a tuple comparison"
-                # operator> / operator< on two make_tuple calls (C++20: rewritten through <=>)
-                op, lhs, rhs = None, None, None
-                if top["k"] == "bin" and top["op"] in (">", "<"):
-                    op, lhs, rhs = top["op"], top["l"], top["r"]
-                elif top["k"] == "call" and top.get("op") in (">", "<") and len(top.get("args", [])) == 2:
-                    op, lhs, rhs = top["op"], top["args"][0], top["args"][1]
-                if op:
-                    L, R = l.nodes[l.strip(lhs)], l.nodes[l.strip(rhs)]
-                    if L["k"] == "call" and R["k"] == "call" and L.get("cname") == "make_tuple" == R.get("cname") \
-                            and len(L["args"]) == 2 == len(R["args"]):
-                        l0, l1 = l.text(L["args"][0]), l.text(L["args"][1])
-                        r0, r1 = l.text(R["args"][0]), l.text(R["args"][1])
-                        pref = r"^%s\.get\(\)\.kill_preference\([^)]*\)\.value_or\(Oomd::KillPreference::NORMAL\)$"
-                        first, second = (pa[0], pa[1]) if op == ">" else (pa[1], pa[0])
-                        if not re.match(pref % re.escape(first), l0) or not re.match(pref % re.escape(second), r0):
-                            why = "first tuple element is not the kill preference (NORMAL default) of the element being ranked higher: %s vs %s" % (l0, r0)
-                        elif "kill_preference" in l1 or "kill_preference" in r1:
-                            why = "metric key mentions the preference"
-                        elif first + ".get()" not in l1 or second + ".get()" not in r1:
-                            why = "keys are not computed from the respective elements: %s / %s" % (l1, r1)
-                        else:
-                            ok = True
-                ctx.check(ok, "comparator:preference-dominates-metric", "expression-tree", l.loc(r),
-                          "sorts descending by (preference, key) with the preference first", why)
-    ctx.counters["comparator_instances"] = n_cmp
-    ctx.floor("comparator_instances", 3, "instantiated sortDescWithKillPrefs comparators")
-
-    # ---- 3. all rank overrides go through it
-    ranks = [f for f in P.fns.values() if f.name == "rankForKilling"]
-    ctx.counters["rank_overrides"] = len(ranks)
-    ctx.floor("rank_overrides", 5, "rankForKilling overrides")
-    for f in ranks:
-        ctx.use(f)
-        for r in returns(f):
-            t = f.text(f.nodes[r]["val"]) if "val" in f.nodes[r] else ""
-            ctx.check(t.startswith("Oomd::OomdContext::sortDescWithKillPrefs("), "rank-via-sortDesc:" + short(f),
-                      "sibling_agreement", f.loc(r), "ranks through sortDescWithKillPrefs",
-                      "ranking does not go through sortDescWithKillPrefs: " + t[:100])
-
     # ---- 4. readKillPreferenceAt: prefer probed before avoid, prefer wins
     rk = ctx.fn1("Oomd::Fs::readKillPreferenceAt")
     table_form = False
@@ -176,6 +107,82 @@ def run(ctx):
               all(X(rk.nodes[i]["args"][0]) == "param:path" for i in rk.calls("hasxattrAt")) and bool(rk.calls("hasxattrAt")),
               "readKillPreferenceAt:probes", "provenance", rk.loc(),
               "probes trusted./user. prefer and avoid on the given dir fd", "probes are " + str(attrs))
+
+
+
+def run(ctx):
+    # locals / parameters the rules below refer to by name (a rename makes the analysis 'broken', never a violation)
+    ctx.anchor(ctx.fn1('Oomd::BaseKillPlugin::resumeTryingToKillSomething'), 'candidate', 'nextBestOptionStack', 'sorted')
+    ctx.anchor(ctx.fn1('Oomd::BaseKillPlugin::tryToKillSomething'), 'sorted', 'nextBestOptionStack')
+    ctx.anchor(ctx.fn1('Oomd::Fs::readKillPreferenceAt'), 'path')
+    P = ctx.prog
+    # ---- 1. enum order
+    e = P.enums.get("Oomd::KillPreference")
+    if not e:
+        ctx.broken("enum", "anchor", "-", "enum Oomd::KillPreference not found")
+    else:
+        v = {c["name"]: c["val"] for c in e["consts"]}
+        ctx.check(v.get("PREFER", 0) > v.get("NORMAL", 0) > v.get("AVOID", 0) and len(v) == 3,
+                  "enum-order:KillPreference", "enum-values", "oomd/include/Types.h",
+                  "PREFER > NORMAL > AVOID", "KillPreference values are %s" % v)
+
+    # ---- 2. the comparator
+    n_cmp = 0
+    for f in P.fns.values():
+        if f.pq != "Oomd::OomdContext::sortDescWithKillPrefs":
+            continue
+        ctx.use(f)
+        lams = P.lambdas_in(f)
+        sorts = f.calls("std::sort", "std::stable_sort")
+        ctx.check(len(sorts) == 1 and len(lams) >= 1, "sortDesc-uses-one-comparator", "anchor", f.loc(),
+                  "one std::sort with one comparator", "expected one std::sort with a closure comparator")
+        for l in lams:
+            ctx.use(l)
+            pa = [p["name"] for p in l.params]
+            for r in returns(l):
+                n_cmp += 1
+                top = l.nodes[l.strip(l.nodes[r]["val"])]
+                ok, why = False, "comparator is not a tuple comparison"
+                # operator> / operator< on two make_tuple calls (C++20: rewritten through <=>)
+                op, lhs, rhs = None, None, None
+                if top["k"] == "bin" and top["op"] in (">", "<"):
+                    op, lhs, rhs = top["op"], top["l"], top["r"]
+                elif top["k"] == "call" and top.get("op") in (">", "<") and len(top.get("args", [])) == 2:
+                    op, lhs, rhs = top["op"], top["args"][0], top["args"][1]
+                if op:
+                    L, R = l.nodes[l.strip(lhs)], l.nodes[l.strip(rhs)]
+                    if L["k"] == "call" and R["k"] == "call" and L.get("cname") == "make_tuple" == R.get("cname") \
+                            and len(L["args"]) == 2 == len(R["args"]):
+                        l0, l1 = l.text(L["args"][0]), l.text(L["args"][1])
+                        r0, r1 = l.text(R["args"][0]), l.text(R["args"][1])
+                        pref = r"^%s\.get\(\)\.kill_preference\([^)]*\)\.value_or\(Oomd::KillPreference::NORMAL\)$"
+                        first, second = (pa[0], pa[1]) if op == ">" else (pa[1], pa[0])
+                        if not re.match(pref % re.escape(first), l0) or not re.match(pref % re.escape(second), r0):
+                            why = "first tuple element is not the kill preference (NORMAL default) of the element being ranked higher: %s vs %s" % (l0, r0)
+                        elif "kill_preference" in l1 or "kill_preference" in r1:
+                            why = "metric key mentions the preference"
+                        elif first + ".get()" not in l1 or second + ".get()" not in r1:
+                            why = "keys are not computed from the respective elements: %s / %s" % (l1, r1)
+                        else:
+                            ok = True
+                ctx.check(ok, "comparator:preference-dominates-metric", "expression-tree", l.loc(r),
+                          "sorts descending by (preference, key) with the preference first", why)
+    ctx.counters["comparator_instances"] = n_cmp
+    ctx.floor("comparator_instances", 3, "instantiated sortDescWithKillPrefs comparators")
+
+    # ---- 3. all rank overrides go through it
+    ranks = [f for f in P.fns.values() if f.name == "rankForKilling"]
+    ctx.counters["rank_overrides"] = len(ranks)
+    ctx.floor("rank_overrides", 5, "rankForKilling overrides")
+    for f in ranks:
+        ctx.use(f)
+        for r in returns(f):
+            t = f.text(f.nodes[r]["val"]) if "val" in f.nodes[r] else ""
+            ctx.check(t.startswith("Oomd::OomdContext::sortDescWithKillPrefs("), "rank-via-sortDesc:" + short(f),
+                      "sibling_agreement", f.loc(r), "ranks through sortDescWithKillPrefs",
+                      "ranking does not go through sortDescWithKillPrefs: " + t[:100])
+
+    kill_preference_reader(ctx)
 
     # ---- 5. DFS in resumeTryingToKillSomething
     rts = ctx.fn1("Oomd::BaseKillPlugin::resumeTryingToKillSomething")
